@@ -77,14 +77,15 @@ Section fin.
     assert (ef (st_now s) (t_holds (drop_hold n k t)) = t_holds (drop_hold n k t)) as Hal'.
     { simpl. unfold ef. rewrite lfilter_comm. fold (ef (st_now s) (t_holds t)). by rewrite Hal. }
     assert (LR s0 [(n, k)] (drop_hold n k t)) as HL0.
-    { destruct HL as [HH HW]. eapply (LR_frame s).
-      - split; [|exact HW]. rewrite Hal'. rewrite Hal in HH. simpl.
+    { destruct HL as (HH & HW & HK). eapply (LR_frame s).
+      - split; [|split; [exact HW|exact HK]]. rewrite Hal'. rewrite Hal in HH. simpl.
         eapply HR_doom; [exact HH|..].
         + intros h _ Hf. apply negb_false_iff, andb_true_iff in Hf as [?%bool_decide_eq_true ?%bool_decide_eq_true].
           apply elem_of_list_singleton. unfold hkey. congruence.
         + intros h _ Hf [= En Ek]%elem_of_list_singleton. rewrite En, Ek, !bool_decide_eq_true_2 in Hf by done. done.
         + by intros d ?%elem_of_nil.
         + intros n' k' [= -> ->]%elem_of_list_singleton. done.
+      - done.
       - done.
       - done.
       - done.
@@ -101,7 +102,7 @@ Section fin.
       apply name_waiters_cons in Hw as [Hw _]. destruct (ti_used_waiters _ _ _ _ _ HTI w Hw) as [_ Hdead].
       intros E. apply (Hdead n). exists ob. by rewrite E. }
     eapply (finish_event cause (remove_lock_entry cfg n k s1) outs (drop_hold n k t)); rewrite ?Hco.
-    - eapply LR_cleanup; [exact HL1|exact Hnl1|by rewrite rle_locks|by rewrite rle_waiters|by rewrite rle_now|by right|left; by rewrite rle_timers].
+    - eapply LR_cleanup; [exact HL1|exact Hnl1|by rewrite rle_locks|by rewrite rle_waiters|by rewrite rle_now|by rewrite rle_used|by right|left; by rewrite rle_timers].
     - done.
     - intros c Hc. destruct (Hcs c Hc) as (? & ? & _). rewrite rle_now, En1. done.
     - done.
